@@ -17,7 +17,7 @@ def case_key(case):
 def check_roundtrip(case, acc, sigp='c01'):
     from cardutil import iso8583
     msg, exp, cfg = isogen.build_message(case)
-    kw = dict(encoding=case['enc'], iso_config=cfg, hex_bitmap=case['hex'])
+    kw = dict(encoding=case['enc'], iso_config=isogen.lib_cfg(case), hex_bitmap=case['hex'])
     try:
         data = iso8583.dumps(copy.deepcopy(msg), **kw)
     except Exception as ex:
@@ -58,7 +58,7 @@ def check_conformance(case, acc, sigp='c02'):
     from cardutil import iso8583
     msg, exp, cfg = isogen.build_message(case)
     enc, hx = case['enc'], case['hex']
-    kw = dict(encoding=enc, iso_config=cfg, hex_bitmap=hx)
+    kw = dict(encoding=enc, iso_config=isogen.lib_cfg(case), hex_bitmap=hx)
     over = any(k == 'OVER' for _, k, _ in case['f'])
     if over:
         try:
@@ -120,6 +120,207 @@ def check_conformance(case, acc, sigp='c02'):
                          '%s=%r' % (k, out.get(k, '<absent>')), '%s=%r' % (k, want.get(k, '<absent>')),
                          'decoded dict differs from the independent reading')
                 return
+
+
+# ---------------------------------------------------------------------------------------------------
+# sequences: state left behind by an earlier call must not matter
+
+PRE_STEPS = ['mci_ipm_encode', 'mideu_convert', 'csv_to_ipm', 'ipm_to_csv', 'param_tools', 'ipm_info', 'custom_codec',
+             'dumps_same_dict', 'reader_writer_custom', 'bad_message']
+
+
+def run_pre_step(name):
+    """one ordinary, successful use of another part of the library (tiny inputs, in memory or in a temp dir)"""
+    import contextlib
+    import io
+    import os
+    import shutil
+    import tempfile
+    from cardutil import iso8583, mciipm
+    from vf import corpus
+    from vf.ref import vbs_ref
+    pkg = isogen.get_cfg('PKG')
+    msg = {'MTI': '1240', 'DE2': '5444330011112222', 'DE4': 5, 'PDS0023': 'CT6', 'PDS0158': 'ABC',
+           'DE55': iso_ref.icc_build([(b'\x9f\x26', b'\x01\x02')]), 'DE43': 'A\\B\\C\\1234567890XYZAUS'}
+    rec_cp500 = iso_ref.encode(msg, pkg, 'cp500', False)[0]
+    rec_latin = iso_ref.encode(msg, pkg, 'latin_1', False)[0]
+    with contextlib.redirect_stdout(io.StringIO()), contextlib.redirect_stderr(io.StringIO()):
+        if name == 'mci_ipm_encode':
+            from cardutil.cli import mci_ipm_encode
+            mci_ipm_encode.mci_ipm_encode(io.BytesIO(vbs_ref.frame([rec_cp500])), out_file=io.BytesIO(),
+                                          in_encoding='cp500', out_encoding='latin_1', in_format='vbs',
+                                          out_format='1014')
+        elif name == 'mideu_convert':
+            from cardutil.cli import mideu
+            d = tempfile.mkdtemp(prefix='vf_pre_')
+            try:
+                p = os.path.join(d, 'in.ipm')
+                with open(p, 'wb') as f:
+                    f.write(vbs_ref.frame([rec_cp500]))
+                mideu.cli_run(func=mideu.convert, input=p, sourceformat='ebcdic', no1014blocking=True)
+                mideu.cli_run(func=mideu.extract, input=p, sourceformat='ebcdic', no1014blocking=True,
+                              csvoutputfile=os.path.join(d, 'o.csv'))
+            finally:
+                shutil.rmtree(d, ignore_errors=True)
+        elif name == 'csv_to_ipm':
+            from cardutil.cli import mci_csv_to_ipm
+            from cardutil.config import config
+            mci_csv_to_ipm.mci_csv_to_ipm(in_csv=io.StringIO('MTI,DE2,DE4,PDS0023\n1240,123456,7,AB\n'),
+                                          out_ipm=io.BytesIO(), config=config, out_encoding='cp500')
+        elif name == 'ipm_to_csv':
+            from cardutil.cli import mci_ipm_to_csv
+            from cardutil.config import config
+            mci_ipm_to_csv.mci_ipm_to_csv(in_ipm=io.BytesIO(vbs_ref.frame([rec_latin])), out_csv=io.StringIO(),
+                                          config=config, in_encoding='latin_1', no1014blocking=True)
+        elif name == 'param_tools':
+            from cardutil.cli import mci_ipm_param_encode, paramconv
+            src = vbs_ref.frame([b'some parameter text', b'more'])
+            mci_ipm_param_encode.mci_ipm_param_encode(io.BytesIO(src), io.BytesIO(), in_encoding='latin_1',
+                                                      out_encoding='cp500', in_format='vbs', out_format='vbs')
+            paramconv.mci_ipm_param_encode(io.BytesIO(src), io.BytesIO(), in_encoding='latin_1',
+                                           out_encoding='cp500', blocked=False)
+        elif name == 'ipm_info':
+            mciipm.ipm_info(io.BytesIO(vbs_ref.frame([rec_latin])))
+        elif name == 'custom_codec':
+            cfg = corpus.cfg_of('CUSTOM')
+            m2 = {'MTI': '1442', 'DE2': '5444330011112222', 'DE7': 42, 'DE32': '123456789012'}
+            iso8583.loads(iso8583.dumps(dict(m2), encoding='cp500', iso_config=cfg, hex_bitmap=True),
+                          encoding='cp500', iso_config=cfg, hex_bitmap=True)
+        elif name == 'dumps_same_dict':
+            d2 = dict(msg)
+            iso8583.dumps(d2)
+            iso8583.dumps(d2, encoding='cp500')
+        elif name == 'reader_writer_custom':
+            cfg = corpus.cfg_of('CUSTOM')
+            f = io.BytesIO()
+            with mciipm.IpmWriter(f, encoding='cp500', blocked=True, iso_config=cfg) as w:
+                w.write({'MTI': '1442', 'DE2': '5444330011112222', 'DE7': 1})
+            list(mciipm.IpmReader(io.BytesIO(f.getvalue()), encoding='cp500', blocked=True, iso_config=cfg))
+        elif name == 'bad_message':
+            for bad in (b'', b'12', rec_latin[:-3], rec_latin + b'x'):
+                try:
+                    iso8583.loads(bad)
+                except Exception:
+                    pass
+            try:
+                list(mciipm.IpmReader(io.BytesIO(vbs_ref.frame([rec_latin[:30]]))))
+            except Exception:
+                pass
+        else:
+            raise core.Broken('pre step ' + name)
+
+
+def check_sequence(case, acc, fn, sigp):
+    """case = {'pre': [...], 'alt': [sub-cases]}: pre steps, then every sub-case in order; any failure is reported
+    with the WHOLE sequence as its replayable case"""
+    for name in case.get('pre', []):
+        try:
+            run_pre_step(name)
+        except core.Broken:
+            raise
+        except Exception as ex:
+            acc.viol(sigp + '.sequence.pre_step_exception', case, '%s: %r' % (name, ex),
+                     'an ordinary use of the library succeeds')
+            return
+    if case.get('inplace'):
+        import copy
+        isogen.set_live(copy.deepcopy(isogen.get_cfg(case['inplace']['base'])))
+    for i, sub in enumerate(case['alt']):
+        if case.get('inplace') and i > 0:
+            for edit in case['inplace']['edits'][i - 1]:
+                isogen.apply_edit(isogen._LIVE['cfg'], edit)
+        tmp = core.Acc()
+        fn(sub, tmp, sigp)
+        for sig, (n, dets) in tmp.violations.items():
+            d = dets[0]
+            acc.viol(sig.replace(sigp + '.', sigp + '.sequence.', 1), case, d['observed'], d['expected'],
+                     'step %d of the sequence (pre steps %s): %s' % (i + 1, case.get('pre', []), d['note']))
+            return
+
+
+def sequence_cases(seed):
+    rich = {'cfg': 'PKG', 'enc': 'latin_1', 'hex': False, 'seed': seed, 'mti': '1240',
+            'f': [[2, 'T', 16], [4, 'N', 4], [12, 'D', [2021, 1]], [43, 'DE43', 0], [55, 'ICC', 40], [63, 'T', 16]],
+            'pds': [[23, 3], [52, 0], [158, 12]]}
+    rich500 = dict(rich, enc='cp500', hex=True)
+    raw = dict(rich, pds=None, f=rich['f'] + [[48, 'PDSRAW', [60, 3]]])
+    # (a) every pre step (and every ordered pair of pre steps) before a message that uses PDS, ICC, DE43 and typed
+    #     fields under the packaged default configuration
+    for a in PRE_STEPS:
+        yield {'pre': [a], 'alt': [rich, rich500, raw]}
+    for a in PRE_STEPS:
+        for b in PRE_STEPS:
+            if a != b:
+                yield {'pre': [a, b], 'alt': [rich, raw]}
+    # (b) alternation A, B, A of configurations / codecs / bitmap renderings on the same element
+    gens = ['GEN%d' % ((seed + i * 5) % 14) for i in range(2)]
+    combos = [('PKG', gens[0]), (gens[0], gens[1]), (gens[0], gens[0] + 'S'), ('PKG', 'PKGS'), (gens[1], 'PKG')]
+    for ca, cb in combos:
+        ba, bb = isogen.bits_of(ca), isogen.bits_of(cb)
+        cfa, cfb = isogen.get_cfg(ca), isogen.get_cfg(cb)
+        for bit in ba:
+            if bit not in bb:
+                continue
+            for vi in (0, 1):
+                sa = {'cfg': ca, 'enc': 'latin_1', 'hex': False, 'seed': seed,
+                      'f': [[bit] + isogen.boundary_variants(cfa[str(bit)])[vi]]}
+                sb = {'cfg': cb, 'enc': 'cp500', 'hex': True, 'seed': seed,
+                      'f': [[bit] + isogen.boundary_variants(cfb[str(bit)])[1 - vi]]}
+                yield {'alt': [sa, sb, sa, dict(sa, enc='cp037'), dict(sb, hex=False, enc='latin_1'), sa]}
+
+
+def inplace_cases(seed):
+    """one caller-owned configuration object, edited in place between calls (documented usage: the configuration is a
+    plain dict); every call must follow the configuration as it is at that time"""
+    for gi in range(2):
+        base = 'GEN%d' % ((seed + gi * 5) % 14)
+        cfg = isogen.get_cfg(base)
+        bits = isogen.bits_of(base)
+        by = {}
+        for b in bits:
+            by.setdefault(isogen.field_class(cfg[str(b)]) + str(iso_ref.prefix_len(cfg[str(b)])), []).append(b)
+        carriers = by.get('pds3', [])
+        texts3 = by.get('var3', [])
+        texts2 = by.get('var2', [])
+        fixed = [b for b in by.get('fixed0', []) if cfg[str(b)]['field_length'] == 7]
+        nums = by.get('num0', [])
+
+        def sub(f, pds=None, enc='latin_1', hx=False):
+            c = {'cfg': 'LIVE', 'enc': enc, 'hex': hx, 'seed': seed, 'f': f}
+            if pds:
+                c['pds'] = pds
+            return c
+        two_carriers = [[1, 900], [2, 500], [3, 3]]
+        # S1: the set of PDS carrier elements changes: first carrier loses the processor, a text element gains it
+        for k in range(min(3, len(carriers), len(texts3))):
+            c1, t1 = carriers[k], texts3[k]
+            e1 = [['del', c1, 'field_processor'], ['set', t1, 'field_processor', 'PDS']]
+            e2 = [['set', c1, 'field_processor', 'PDS'], ['del', t1, 'field_processor']]
+            yield {'inplace': {'base': base, 'edits': [e1, e2, e1]},
+                   'alt': [sub([], two_carriers), sub([], two_carriers), sub([], two_carriers, 'cp500', True),
+                           sub([[c1, 'T', 30]], two_carriers)]}
+        # S2: a fixed width changes
+        for b in fixed[:3]:
+            yield {'inplace': {'base': base, 'edits': [[['set', b, 'field_length', 9]], [['set', b, 'field_length', 2]],
+                                                        [['set', b, 'field_length', 7]]]},
+                   'alt': [sub([[b, 'T', 7]]), sub([[b, 'T', 9]]), sub([[b, 'T', 2]], None, 'cp500'),
+                           sub([[b, 'T', 7]])]}
+        # S3: a processor appears on / disappears from a variable-length element
+        for b in texts2[:3]:
+            yield {'inplace': {'base': base, 'edits': [[['set', b, 'field_processor', 'PAN']],
+                                                        [['set', b, 'field_processor', 'PAN-PREFIX']],
+                                                        [['del', b, 'field_processor']]]},
+                   'alt': [sub([[b, 'PAN', 16]]), sub([[b, 'PAN', 16]]), sub([[b, 'PAN', 19]]), sub([[b, 'PAN', 16]])]}
+        # S4: the python type of a fixed element changes (number <-> text)
+        for b in nums[:2]:
+            yield {'inplace': {'base': base, 'edits': [[['del', b, 'field_python_type']],
+                                                        [['set', b, 'field_python_type', 'int']]]},
+                   'alt': [sub([[b, 'N', 4]]), sub([[b, 'T', 3]]), sub([[b, 'N', 3]])]}
+        # S5: LLVAR <-> LLLVAR
+        for b in texts2[:2]:
+            yield {'inplace': {'base': base, 'edits': [[['set', b, 'field_type', 'LLLVAR']],
+                                                        [['set', b, 'field_type', 'LLVAR']]]},
+                   'alt': [sub([[b, 'T', 99]]), sub([[b, 'T', 500]]), sub([[b, 'T', 12]])]}
 
 
 # ---------------------------------------------------------------------------------------------------
@@ -228,6 +429,9 @@ def plan(tier, seed, which):
         ts.append({'fam': 'long', 'cfg': cfgname, 'enc': enc, 'hex': hx, 'seed': seed, 'which': which})
     for cfgname, enc, hx in order_combos:
         ts.append({'fam': 'long', 'cfg': cfgname, 'enc': enc, 'hex': hx, 'seed': seed, 'which': which})
+    for part in range(16):
+        ts.append({'fam': 'sequence', 'part': part, 'of': 16, 'seed': seed, 'which': which, 'cfg': '-', 'enc': '-',
+                   'hex': False})
     for cfgname, enc, hx in pair_combos:
         for bit in isogen.bits_of(cfgname):
             ts.append({'fam': 'pairs', 'cfg': cfgname, 'enc': enc, 'hex': hx, 'bit': bit, 'seed': seed,
@@ -246,6 +450,19 @@ def run_task(task):
     acc = core.Acc()
     which = task['which']
     fn = check_roundtrip if which == 'C01' else check_conformance
+    if task['fam'] == 'sequence':
+        n = 0
+        import itertools
+        for i, case in enumerate(itertools.chain(sequence_cases(task['seed']), inplace_cases(task['seed']))):
+            if i % task['of'] != task['part']:
+                continue
+            acc.case(('seq', repr(case.get('pre')), repr(case.get('inplace')), repr([c['f'] for c in case['alt']]),
+                      repr([(c['cfg'], c['enc'], c['hex']) for c in case['alt']])), nontrivial=True, outcome='sequence')
+            if n == 0:
+                acc.sample({'pre': case.get('pre', []), 'alt': [dict(c, f=c['f'][:2]) for c in case['alt'][:3]]})
+            n += 1
+            check_sequence(case, acc, fn, which.lower())
+        return acc
     if task['fam'] == 'singles':
         gen = singles_cases(task['cfg'], task['enc'], task['hex'], task['bit'], task['seed'], extras=(which == 'C02'))
     elif task['fam'] == 'pairs':
